@@ -85,6 +85,14 @@ def _accessors(seed, n):
                 r5 = impl.call(dsw.adjacency_matrix_to_accessor, m)
                 if r5["out"] == "ok":
                     src.append(("adjacency_matrix_to_accessor(matrix with a stray arc)", r5["value"]))
+                for u in rng.sample(range(N), 4):                               # a target just below / above the row's successor block
+                    first = (4 * u) % N
+                    for w in ((first - 1) % N, (first - 3) % N, (first + 4) % N):
+                        m3 = numpy.zeros((N, N), dtype=int)
+                        m3[u, w] = 1
+                        r7 = impl.call(dsw.adjacency_matrix_to_accessor, m3)
+                        if r7["out"] == "ok":
+                            src.append(("adjacency_matrix_to_accessor(arc next to the successor block)", r7["value"]))
                 if k == 3:
                     for u in rng.sample(range(16, N), 6):                       # a target that would be a successor one order lower
                         m2 = numpy.zeros((N, N), dtype=int)                    # nothing but the one questionable arc
@@ -139,9 +147,15 @@ def run(ctx):
     rng = random.Random(ctx.seed * 7919 + 13)
     cases = []
     nar = 600 if ctx.quick else 6000
-    for _ in range(nar):
-        k = rng.randint(1, 13)
-        v = rng.randrange(4 ** k)
+    # history: threshold-1 generations that trim information-free cycles (with tails) run first in this process; the helpers are then
+    # asked about every vertex of those orders
+    for k, mask in ((2, [1, 4, 5, 6, 9]), (2, [0, 1, 2, 4, 8]), (3, [5, 20, 17, 21, 22, 25, 37]), (3, list(range(0, 64, 3)))):
+        m = numpy.zeros(4 ** k, dtype=bool)
+        m[mask] = True
+        impl.call(dsw.connect_coding_graph, k, m, 1, _budget=8 * 4 ** k + 16)
+    todo = [(k, v) for k in (2, 3) for v in range(4 ** k)] + [(rng.randint(1, 13), None) for _ in range(nar)]
+    for k, v in todo:
+        v = rng.randrange(4 ** k) if v is None else v
         c = {"kind": "arith", "k": k, "v": v}
         c["latters"] = [int(x) for x in dsw.obtain_latters(v, k)]
         c["formers"] = [int(x) for x in dsw.obtain_formers(v, k)]
